@@ -109,6 +109,10 @@ PROPS = {
         "lean_targets": ["H2V.Props.C10"],
         "theorems": [
             ("H2V.Props.C10", "H2V.Props.C10.index_static_sound"),
+            ("H2V.Props.C10", "H2V.Props.C10.roundtrip_history"),
+            ("H2V.Props.C10", "H2V.Props.C10.table_bounded"),
+            ("H2V.Props.C10", "H2V.Props.C10.table_bounded_block_end"),
+            ("H2V.Props.C10", "H2V.Props.C10.reduction_signalled_first"),
         ],
         "profiles": [
             {"name": "hpackenc", "quick": 700, "thorough": 8000, "shards": {"quick": 1, "thorough": 6}},
